@@ -70,7 +70,7 @@ Qed.
 Lemma psums_last w ls : last (psums w ls) 0 = w + len (concat ls).
 Proof.
   revert w. induction ls as [|s r IH]; intros w.
-  - cbn. rewrite len_nil. lia.
+  - cbn. lia.
   - cbn [psums concat]. rewrite len_app.
     replace (last (w :: psums (w + len s) r) 0) with (last (psums (w + len s) r) 0).
     + rewrite IH. lia.
@@ -84,11 +84,14 @@ Proof.
   induction ls as [|x r IH]; intros w i a b s Ha Hb Hs.
   - destruct i; discriminate.
   - destruct i.
-    + cbn in Ha, Hs. inversion Ha; inversion Hs; subst.
-      cbn [psums nth_error] in Hb. rewrite psums_hd in Hb. inversion Hb; subst.
+    + change (nth_error (psums w (x :: r)) 1) with (nth_error (psums (w + len x) r) 0) in Hb.
+      rewrite psums_hd in Hb.
+      cbn in Ha, Hs. inversion Ha; inversion Hs; subst. inversion Hb; subst.
       cbn [concat]. replace (a - a) with 0 by lia. replace (a + len s - a) with (len s) by lia.
       apply slice_full_prefix.
-    + cbn [psums nth_error] in Ha, Hb. cbn in Hs. cbn [concat].
+    + change (nth_error (psums w (x :: r)) (S i)) with (nth_error (psums (w + len x) r) i) in Ha.
+      change (nth_error (psums w (x :: r)) (S (S i))) with (nth_error (psums (w + len x) r) (S i)) in Hb.
+      cbn in Hs. cbn [concat].
       pose proof (psums_ge _ _ _ _ Ha).
       replace (a - w) with (len x + (a - (w + len x))) by lia.
       replace (b - w) with (len x + (b - (w + len x))) by lia.
@@ -143,7 +146,7 @@ Proof.
         rewrite lookup_none_lt; [reflexivity|]. eapply Forall_impl; [|exact Hall]. cbn; intros; lia.
       * reflexivity.
     + destruct (Z.eqb_spec g g').
-      * subst. cbn. destruct (Z.eqb_spec x g'); [subst; now rewrite Z.eqb_refl | reflexivity].
+      * subst. cbn. destruct (Z.eqb_spec x g'); [subst; try rewrite Z.eqb_refl; reflexivity | reflexivity].
       * cbn. rewrite IH. destruct (Z.eqb_spec x g').
         -- destruct (Z.eqb_spec x g); [lia | reflexivity].
         -- destruct (Z.eqb_spec x g); [|reflexivity]. subst.
@@ -278,7 +281,9 @@ Proof.
         -- cbn. now rewrite L.
         -- cbn. rewrite D. unfold padded. now rewrite <- app_assoc.
         -- cbn [psums]. rewrite O. do 2 f_equal. unfold padded. rewrite len_app.
-           unfold len at 3. rewrite repeat_length.
+           assert (Hr : len (repeat 0 (Z.to_nat (padding T (len d)))) = Z.of_nat (Z.to_nat (padding T (len d))))
+             by (unfold len; now rewrite repeat_length).
+           rewrite Hr.
            assert (0 <= padding T (len d)).
            { unfold padding. destruct (1 <? ot_div T) eqn:G; [|lia]. apply Z.ltb_lt in G.
              apply Z.mod_pos_bound. lia. }
@@ -287,8 +292,8 @@ Proof.
            ++ cbn in Hs. inversion Hs; subst. unfold new_slice. cbn [lookup].
               now rewrite Z.add_0_r, Z.eqb_refl.
            ++ cbn in Hs. apply P in Hs. rewrite <- Hs. unfold new_slice. cbn [lookup].
-              destruct (Z.eqb_spec (gid + Z.of_nat (S i)) gid); [lia|].
-              f_equal. f_equal. lia.
+              replace (gid + Z.of_nat (S i)) with (gid + 1 + Z.of_nat i) by lia.
+              destruct (Z.eqb_spec (gid + 1 + Z.of_nat i) gid); [lia|]. reflexivity.
       * inversion Hge as [|? ? Hg Hge0]; subst. cbn in Hg.
         apply Hkeep; [| exact H |].
         -- cbn [lookup]. destruct (Z.eqb_spec gid g); [lia|].
@@ -296,4 +301,301 @@ Proof.
            eapply Forall_impl; [|eassumption]. cbn; intros; lia.
         -- constructor; [cbn; lia|]. inversion Hok; subst.
            eapply Forall_impl; [|eassumption]. cbn; intros; lia.
+Qed.
+
+Lemma build_loop_fits : forall n gid repl offs data T w os ds,
+  build_loop n gid repl offs data T w = inr (os, ds) -> Forall (fun x => off_fits T x = true) os.
+Proof.
+  induction n as [|n IH]; intros gid repl offs data T w os ds H.
+  - cbn in H. destruct (off_fits T w) eqn:F; [|discriminate]. inversion H; subst. repeat constructor. exact F.
+  - cbn [build_loop] in H.
+    assert (K : forall repl',
+      match nthZ offs gid, nthZ offs (gid + 1) with
+      | Some s, Some e =>
+          match slice data s e with
+          | Some sl => if off_fits T w
+                       then let? (os, ds) := build_loop n (gid + 1) repl' offs data T (w + (e - s)) in
+                            inr (w :: os, sl ++ ds)
+                       else inl (8, 0)
+          | None => inl (2, 1)
+          end
+      | _, _ => inl (6, 10)
+      end = inr (os, ds) -> Forall (fun x => off_fits T x = true) os).
+    { intros repl' K.
+      destruct (nthZ offs gid); [|discriminate]. destruct (nthZ offs (gid + 1)); [|discriminate].
+      destruct (slice data z z0); [|discriminate]. destruct (off_fits T w) eqn:F; [|discriminate].
+      destruct (build_loop n (gid + 1) repl' offs data T (w + (z0 - z))) as [?|[os' ds']] eqn:E; [discriminate|].
+      cbn in K. inversion K; subst. constructor; [exact F | eapply IH; eauto]. }
+    destruct repl as [|[g d] r']; [eapply K; eauto|].
+    destruct (g =? gid); [|eapply K; eauto].
+    destruct (off_fits T w) eqn:F; [|discriminate].
+    destruct (build_loop n (gid + 1) r' offs data T (w + len d + padding T (len d))) as [?|[os' ds']] eqn:E; [discriminate|].
+    cbn in H. inversion H; subst. constructor; [exact F | eapply IH; eauto].
+Qed.
+
+(* ---------- dedup ---------- *)
+Lemma dedup_inv views t m : dedup views t = inr m ->
+  exists items, mapM (fun v => gp_items v t) views = inr items /\ m = gm_insert_all (concat items) [].
+Proof.
+  unfold dedup. destruct (mapM (fun v => gp_items v t) views) as [e|items]; cbn; [discriminate|].
+  intros H; inversion H. eauto.
+Qed.
+Lemma dedup_ok views t m : dedup views t = inr m -> gm_ok m.
+Proof. intros H. apply dedup_inv in H. destruct H as [items [_ ->]]. apply gm_insert_all_ok. constructor. Qed.
+(* first patch wins: the data kept for a gid is the first one listed for it, in patch order *)
+Lemma dedup_first_wins views t m : dedup views t = inr m ->
+  exists items, mapM (fun v => gp_items v t) views = inr items /\
+                forall g, lookup m g = first_data (concat items) g.
+Proof.
+  intros H. apply dedup_inv in H. destruct H as [items [E ->]]. exists items. split; [exact E|].
+  intros g. rewrite gm_insert_all_lookup by constructor. reflexivity.
+Qed.
+
+(* ---------- patch_offset_array ---------- *)
+Lemma poa_inv views t offs data T avail maxgid T' os ds :
+  patch_offset_array views t offs data T avail maxgid = inr (T', os, ds) ->
+  exists m total, dedup views t = inr m /\ choose_type T avail total = inr T' /\
+    (last (map fst m) 0 <= maxgid) /\ ascending offs = true /\
+    build_loop (Z.to_nat (maxgid + 1)) 0 m offs data T' 0 = inr (os, ds).
+Proof.
+  unfold patch_offset_array. destruct (dedup views t) as [[? ?]|m]; [discriminate|].
+  destruct (retained_total _ offs 0) as [?|total0]; cbn [bind]; [discriminate|].
+  match goal with |- context [choose_type T avail ?tt] => set (total := tt) end.
+  destruct (choose_type T avail total) as [?|T0] eqn:C; cbn [bind]; [discriminate|].
+  destruct (last (map fst m) 0 >? maxgid) eqn:L; [discriminate|].
+  destruct (ascending offs) eqn:A; cbn [negb]; [|discriminate].
+  destruct (build_loop _ 0 m offs data T0 0) as [?|[os0 ds0]] eqn:B; cbn [bind]; [discriminate|].
+  intros H; inversion H; subst. exists m, total. repeat split; auto. lia.
+Qed.
+
+Lemma nthZ_nth {A} (l : list A) g : 0 <= g -> nthZ l g = nth_error l (Z.to_nat g).
+Proof. intros. unfold nthZ. destruct (Z.ltb_spec g 0); [lia | reflexivity]. Qed.
+
+Lemma poa_exact views t offs data T avail maxgid T' os ds :
+  patch_offset_array views t offs data T avail maxgid = inr (T', os, ds) -> 0 <= maxgid ->
+  exists m, dedup views t = inr m /\
+   (Forall (fun gd => 0 <= fst gd) m ->
+    forall g, 0 <= g <= maxgid ->
+      exists a b s, nthZ os g = Some a /\ nthZ os (g + 1) = Some b /\
+                    new_slice T' m offs data g = Some s /\ slice ds a b = Some s).
+Proof.
+  intros H Hm. apply poa_inv in H. destruct H as [m [total [D [_ [_ [_ B]]]]]].
+  exists m. split; [exact D|]. intros Hnn g Hg.
+  destruct (build_loop_spec _ _ _ _ _ _ _ _ _ B (dedup_ok _ _ _ D) Hnn) as [sls [L [-> [-> P]]]].
+  assert (Hi : (Z.to_nat g < length sls)%nat) by lia.
+  destruct (nth_error sls (Z.to_nat g)) as [s|] eqn:Es; [|apply nth_error_None in Es; lia].
+  assert (Ha : exists a, nth_error (psums 0 sls) (Z.to_nat g) = Some a).
+  { destruct (nth_error (psums 0 sls) (Z.to_nat g)) eqn:E; [eauto|].
+    apply nth_error_None in E. rewrite psums_length in E. exfalso. clear - Hi E. unfold bytes in *. lia. }
+  assert (Hb : exists b, nth_error (psums 0 sls) (S (Z.to_nat g)) = Some b).
+  { destruct (nth_error (psums 0 sls) (S (Z.to_nat g))) eqn:E; [eauto|].
+    apply nth_error_None in E. rewrite psums_length in E. exfalso. clear - Hi E. unfold bytes in *. lia. }
+  destruct Ha as [a Ha], Hb as [b Hb]. exists a, b, s.
+  rewrite !nthZ_nth by lia. replace (Z.to_nat (g + 1)) with (S (Z.to_nat g)) by lia.
+  repeat split; auto.
+  - specialize (P _ _ Es). rewrite Z2Nat.id in P by lia. exact P.
+  - pose proof (psums_slice sls 0 _ a b s Ha Hb Es) as Q. now rewrite !Z.sub_0_r in Q.
+Qed.
+
+Lemma poa_offsets views t offs data T avail maxgid T' os ds :
+  patch_offset_array views t offs data T avail maxgid = inr (T', os, ds) -> 0 <= maxgid ->
+  (forall m, dedup views t = inr m -> Forall (fun gd => 0 <= fst gd) m) ->
+  ascending os = true /\ len os = maxgid + 2 /\ nthZ os 0 = Some 0 /\ last os 0 = len ds /\
+  Forall (fun x => off_fits T' x = true) os.
+Proof.
+  intros H Hm Hnn. apply poa_inv in H. destruct H as [m [total [D [_ [_ [_ B]]]]]].
+  pose proof (build_loop_fits _ _ _ _ _ _ _ _ _ B) as F.
+  destruct (build_loop_spec _ _ _ _ _ _ _ _ _ B (dedup_ok _ _ _ D) (Hnn _ D)) as [sls [L [-> [-> P]]]].
+  repeat split.
+  - apply psums_ascending.
+  - unfold len. rewrite psums_length. unfold bytes in *. rewrite L. lia.
+  - unfold nthZ. cbn. apply psums_hd.
+  - rewrite psums_last. lia.
+  - exact F.
+Qed.
+
+(* the upgrade decision *)
+Lemma choose_type_spec T avail total T' : choose_type T avail total = inr T' ->
+  (total <= ot_max T /\ T' = T) \/
+  (ot_max T < total /\ total <= ot_max T' /\
+   exists pre post, avail = pre ++ T' :: post /\ Forall (fun c => ot_max c < total) pre).
+Proof.
+  unfold choose_type. destruct (Z.gtb_spec total (ot_max T)).
+  - destruct (find (fun c => total <=? ot_max c) avail) as [c|] eqn:F; [|discriminate].
+    intros E; inversion E; subst. right. split; [lia|].
+    clear E. induction avail as [|x r IH]; [discriminate|]. cbn in F.
+    destruct (Z.leb_spec total (ot_max x)).
+    + inversion F; subst. split; [lia|]. exists [], r. split; [reflexivity | constructor].
+    + destruct (IH F) as [L [pre [post [-> Hp]]]]. split; [exact L|].
+      exists (x :: pre), post. split; [reflexivity|]. constructor; [lia | exact Hp].
+  - intros E; inversion E; subst. left. split; [assumption | reflexivity].
+Qed.
+
+(* ---------- permutations ---------- *)
+Lemma mapM_cons_inv {A B} (f : A -> res B) x l ys : mapM f (x :: l) = inr ys ->
+  exists y ys0, f x = inr y /\ mapM f l = inr ys0 /\ ys = y :: ys0.
+Proof.
+  cbn. destruct (f x) as [?|y]; cbn; [discriminate|]. destruct (mapM f l) as [?|ys0]; cbn; [discriminate|].
+  intros H; inversion H. eauto.
+Qed.
+Lemma mapM_cons_intro {A B} (f : A -> res B) x l y ys0 : f x = inr y -> mapM f l = inr ys0 ->
+  mapM f (x :: l) = inr (y :: ys0).
+Proof. intros H1 H2. cbn. rewrite H1. cbn. rewrite H2. reflexivity. Qed.
+
+Lemma mapM_perm {A B} (f : A -> res B) l l' : Permutation l l' -> forall ys, mapM f l = inr ys ->
+  exists ys', mapM f l' = inr ys' /\ Permutation ys ys'.
+Proof.
+  induction 1 as [|x l l' HP IH|x y l|l l' l'' H1 IH1 H2 IH2]; intros ys H.
+  - exists ys. split; [exact H|]. cbn in H. inversion H. constructor.
+  - apply mapM_cons_inv in H. destruct H as [y [ys0 [Fx [M ->]]]].
+    destruct (IH _ M) as [ys' [M' P]]. exists (y :: ys'). split; [now apply mapM_cons_intro | now constructor].
+  - apply mapM_cons_inv in H. destruct H as [b [ys0 [Fy [M ->]]]].
+    apply mapM_cons_inv in M. destruct M as [a [ys1 [Fx [M ->]]]].
+    exists (a :: b :: ys1). split; [|constructor].
+    apply mapM_cons_intro; [exact Fx|]. now apply mapM_cons_intro.
+  - destruct (IH1 _ H) as [ys' [M' P']]. destruct (IH2 _ M') as [ys'' [M'' P'']].
+    exists ys''. split; [exact M''|]. eapply Permutation_trans; eauto.
+Qed.
+
+Lemma Permutation_concat {A} (l l' : list (list A)) : Permutation l l' -> Permutation (concat l) (concat l').
+Proof.
+  induction 1; cbn.
+  - constructor.
+  - now apply Permutation_app_head.
+  - rewrite !app_assoc. apply Permutation_app_tail. apply Permutation_app_comm.
+  - eapply Permutation_trans; eauto.
+Qed.
+
+Lemma forallb_perm {A} (p : A -> bool) l l' : Permutation l l' -> forallb p l = forallb p l'.
+Proof.
+  induction 1; cbn; [reflexivity | now rewrite IHPermutation | destruct (p x), (p y); reflexivity | congruence].
+Qed.
+Lemma existsb_perm {A} (p : A -> bool) l l' : Permutation l l' -> existsb p l = existsb p l'.
+Proof.
+  induction 1; cbn; [reflexivity | now rewrite IHPermutation | destruct (p x), (p y); reflexivity | congruence].
+Qed.
+
+(* items that agree on shared glyph ids *)
+Definition items_agree (its : list (Z * bytes)) : Prop :=
+  forall g d1 d2, In (g, d1) its -> In (g, d2) its -> d1 = d2.
+
+Lemma first_data_perm its its' g : Permutation its its' -> items_agree its ->
+  first_data its' g = first_data its g.
+Proof.
+  intros P A.
+  destruct (first_data its g) as [d|] eqn:E1; destruct (first_data its' g) as [d'|] eqn:E2; try reflexivity.
+  - apply first_data_in in E1, E2. f_equal. apply (A g); [|exact E1].
+    eapply Permutation_in; [apply Permutation_sym; exact P | exact E2].
+  - apply first_data_in in E1. exfalso. eapply first_data_none; [exact E2|].
+    eapply Permutation_in; [exact P | exact E1].
+  - apply first_data_in in E2. exfalso. eapply first_data_none; [exact E1|].
+    eapply Permutation_in; [apply Permutation_sym; exact P | exact E2].
+Qed.
+
+Lemma gm_insert_all_perm its its' : Permutation its its' -> items_agree its ->
+  gm_insert_all its' [] = gm_insert_all its [].
+Proof.
+  intros P A. apply gm_ext; try (apply gm_insert_all_ok; constructor).
+  intros x. rewrite !gm_insert_all_lookup by constructor. cbn. now apply first_data_perm.
+Qed.
+
+(* the patches' data for table t agree wherever two of them list the same glyph *)
+Definition views_agree (t : Z) (views : list gp) : Prop :=
+  forall items, mapM (fun v => gp_items v t) views = inr items -> items_agree (concat items).
+
+Lemma dedup_perm t views views' m : Permutation views views' -> views_agree t views ->
+  dedup views t = inr m -> dedup views' t = inr m.
+Proof.
+  intros P A D. apply dedup_inv in D. destruct D as [items [M ->]].
+  destruct (mapM_perm _ _ _ P _ M) as [items' [M' P']].
+  unfold dedup. rewrite M'. cbn. f_equal.
+  apply gm_insert_all_perm; [now apply Permutation_concat | now apply A].
+Qed.
+
+Lemma poa_perm t views views' offs data T avail maxgid r : Permutation views views' -> views_agree t views ->
+  patch_offset_array views t offs data T avail maxgid = inr r ->
+  patch_offset_array views' t offs data T avail maxgid = inr r.
+Proof.
+  intros P A H. unfold patch_offset_array in *.
+  destruct (dedup views t) as [[? ?]|m] eqn:D; [discriminate|].
+  rewrite (dedup_perm _ _ _ _ P A D). exact H.
+Qed.
+
+Lemma patch_glyf_perm f views views' maxgid r : Permutation views views' -> views_agree T_glyf views ->
+  patch_glyf f views maxgid = inr r -> patch_glyf f views' maxgid = inr r.
+Proof.
+  intros P A H. unfold patch_glyf in *.
+  destruct (lookup f T_glyf) as [glyf|]; [|discriminate].
+  destruct (read_loca f) as [[T offs]|]; [|discriminate].
+  destruct (patch_offset_array views T_glyf offs glyf T [T] maxgid) as [?|x] eqn:E; [discriminate|].
+  rewrite (poa_perm _ _ _ _ _ _ _ _ _ P A E). exact H.
+Qed.
+
+(* applied bits *)
+Lemma set_bit_comm : forall d i b j c,
+  match set_bit d i b with Some d1 => set_bit d1 j c | None => None end =
+  match set_bit d j c with Some d2 => set_bit d2 i b | None => None end.
+Proof.
+  induction d as [|x r IH]; intros [|i] b [|j] c; cbn; try reflexivity.
+  - do 2 f_equal. rewrite <- !Z.lor_assoc. f_equal. apply Z.lor_comm.
+  - destruct (set_bit r j c); reflexivity.
+  - destruct (set_bit r i b); reflexivity.
+  - specialize (IH i b j c).
+    destruct (set_bit r i b) as [r1|]; destruct (set_bit r j c) as [r2|]; cbn in *;
+      [now rewrite IH | now rewrite IH | now rewrite <- IH | reflexivity].
+Qed.
+
+Lemma mark_applied_comm st x y :
+  (let? s := mark_applied st x in mark_applied s y) = (let? s := mark_applied st y in mark_applied s x).
+Proof.
+  destruct st as [ift iftx]. unfold mark_applied.
+  destruct (pi_tbl x =? 0), (pi_tbl y =? 0); destruct ift as [a|], iftx as [b|]; cbn; try reflexivity;
+  try (pose proof (set_bit_comm a (Z.to_nat (pi_bit x / 8)) (pi_bit x mod 8) (Z.to_nat (pi_bit y / 8)) (pi_bit y mod 8)) as C);
+  try (pose proof (set_bit_comm b (Z.to_nat (pi_bit x / 8)) (pi_bit x mod 8) (Z.to_nat (pi_bit y / 8)) (pi_bit y mod 8)) as C');
+  repeat match goal with
+         | |- context [set_bit ?d ?i ?c] => destruct (set_bit d i c) eqn:?; cbn
+         end; try reflexivity; try congruence;
+  repeat match goal with
+         | H : context [set_bit ?d ?i ?c] |- _ => destruct (set_bit d i c) eqn:?; cbn in *
+         end; try reflexivity; try congruence.
+Qed.
+
+Lemma mark_all_perm l l' : Permutation l l' -> forall st, mark_all st l = mark_all st l'.
+Proof.
+  induction 1 as [|x l l' HP IH|x y l|l l' l'' H1 IH1 H2 IH2]; intros st.
+  - reflexivity.
+  - cbn. destruct (mark_applied st x); cbn; [reflexivity | apply IH].
+  - cbn. pose proof (mark_applied_comm st y x) as C.
+    destruct (mark_applied st y) as [e1|s1] eqn:E1; destruct (mark_applied st x) as [e2|s2] eqn:E2; cbn in *.
+    + (* both fail: the only error is InternalError *)
+      unfold mark_applied in E1, E2. destruct st as [a b].
+      repeat match goal with
+             | H : context [if ?c then _ else _] |- _ => destruct c
+             | H : context [match ?o with Some _ => _ | None => _ end] |- _ => destruct o; cbn in H
+             end; try discriminate; inversion E1; inversion E2; reflexivity.
+    + rewrite <- C. reflexivity.
+    + rewrite C. reflexivity.
+    + destruct (mark_applied s1 x) as [?|s3]; destruct (mark_applied s2 y) as [?|s4]; cbn; try discriminate;
+        inversion C; subst; reflexivity.
+  - rewrite IH1. apply IH2.
+Qed.
+
+Theorem gk_core_perm f (ivs ivs' : list (pinfo * gp)) F :
+  Permutation ivs ivs' -> views_agree T_glyf (map snd ivs) ->
+  gk_core f (map fst ivs) (map snd ivs) = inr F -> gk_core f (map fst ivs') (map snd ivs') = inr F.
+Proof.
+  intros P A H.
+  pose proof (Permutation_map fst P) as Pi. pose proof (Permutation_map snd P) as Pv.
+  unfold gk_core, lists_tag in *.
+  rewrite <- (forallb_perm _ _ _ Pv). rewrite <- !(existsb_perm _ _ _ Pv).
+  rewrite <- (mark_all_perm _ _ Pi).
+  destruct (lookup f T_maxp) as [mx|]; [|cbn in H; discriminate].
+  destruct (uN_at 2 mx 4) as [ng|]; [|cbn in H; discriminate]. cbn [bind] in *.
+  destruct (ng =? 0); [discriminate|].
+  destruct (forallb (fun v => strictly_ascending (gp_tables v)) (map snd ivs)); cbn [negb] in *; [|discriminate].
+  destruct (existsb (fun v => memZ T_CFF (gp_tables v)) (map snd ivs)); [discriminate|].
+  destruct (existsb (fun v => memZ T_CFF2 (gp_tables v)) (map snd ivs)); [discriminate|].
+  destruct (existsb (fun v => memZ T_glyf (gp_tables v)) (map snd ivs)); [|exact H].
+  destruct (patch_glyf f (map snd ivs) (ng - 1)) as [?|r] eqn:G; [discriminate|].
+  rewrite (patch_glyf_perm _ _ _ _ _ Pv A G). exact H.
 Qed.
